@@ -275,7 +275,7 @@ def handleHeap (args : List String) : String :=
       | (.error _, _) => "ERR"
       | (.ok s, h0) =>
         let h1 := runSide sys fuelDefault s pre h0
-        match cloneSim s (tr = "1") h1 with
+        match cloneSim s (tr = "1") false h1 with
         | (.error _, _) => "ERR"
         | (.ok c, h2) =>
           "|".intercalate ((aliasGraph h2 s c ++ ";O" ++ showObsOf h2 s ++ ";C" ++ showObsOf h2 c) :: runSteps sys s c ops h2)
